@@ -244,14 +244,6 @@ func nbLoad(path string) ([]database.Command, string) {
 	return db.Commands, ""
 }
 
-func nbStateLine(path string) string {
-	cs, st := nbLoad(path)
-	if st != "" {
-		return st
-	}
-	return nbStateTok(cs)
-}
-
 func execNotebook(ops []string, mon *Mon) (out []string) {
 	dir, err := os.MkdirTemp("", "wtfverif-nb-")
 	if err != nil {
@@ -322,9 +314,9 @@ func execNotebook(ops []string, mon *Mon) (out []string) {
 				err := cli.VerifSaveToPersonalDatabase(path, e)
 				want := nbSaveShadow(shadow, e)
 				det := map[string]interface{}{"op": nbPretty(o)}
+				got, st := nbLoad(path)
 				if err == nil {
 					mon.Tag("save-ok")
-					got, st := nbLoad(path)
 					idx := len(shadow)
 					for i := range shadow {
 						if shadow[i].Command == e.Command {
@@ -385,7 +377,10 @@ func execNotebook(ops []string, mon *Mon) (out []string) {
 				if err == nil {
 					res = "ok "
 				}
-				out = append(out, res+nbStateLine(path))
+				if st == "" {
+					st = nbStateTok(got)
+				}
+				out = append(out, res+st)
 			case "load":
 				db, err := database.LoadDatabaseWithPersonal(mainPath, path)
 				if err != nil {
